@@ -935,6 +935,15 @@ func (sp c10Spec) predictRepls(p *c10Pred, mode c10Mode) {
 						return
 					}
 					for _, s := range slots {
+						if s.get() == nil {
+							// the target field exists and holds null: setFieldValue copies only the TEXT into a scalar
+							// node, which stays tagged !!null — a later lookup treats it as missing and the document can
+							// no longer be encoded ("cannot decode !!str `x` as a !!null"); the value-level view of the
+							// oracle cannot express that state: no verdict (the Coq model, which carries tags, is
+							// compared with the implementation on these cases)
+							p.unknown = true
+							return
+						}
 						if nsVal != nil {
 							old := s.get()
 							if tg.Options != nil && tg.Options.Delimiter != "" {
